@@ -223,17 +223,23 @@ thread_local! {
     /// the planted peak value (a reused, shrunk buffer) and whose storage - alignment padding included -
     /// was then `fill`ed with the largest value: rows past the logical end and padding must be invisible.
     static SHRUNK: std::cell::Cell<bool> = const { std::cell::Cell::new(false) };
+    /// When set, the matrix is declared with FEWER valid positions (max_index) than it has cells, as every real
+    /// score matrix of a sequence whose length is not a multiple of the column count: the cells past max_index
+    /// are cells of the matrix all the same (the statement quantifies over cells).
+    static SHORT: std::cell::Cell<bool> = const { std::cell::Cell::new(false) };
 }
 
 fn build<T: El, C: PositiveLength>(plan: &Plan<T>, bg: &dyn Fn(usize, usize, usize, usize, usize) -> T) -> (StripedScores<T, C>, Vec<T>) {
     let cols = C::USIZE;
+    let full = plan.rows * cols;
+    let max_index = if SHORT.with(|x| x.get()) { full.saturating_sub(cols / 2 + 1) } else { full };
     let s = if SHRUNK.with(|x| x.get()) {
         let junk = plan.planted.first().map(|p| p.2);
         let mut s = cfgs::build_scores::<T, C>(plan.rows + 3, (plan.rows + 3) * cols, |r, c| match junk {
             Some(v) => v,
             None => cell(plan, bg, r.min(plan.rows.saturating_sub(1)), c, cols),
         });
-        s.resize(plan.rows, plan.rows * cols);
+        s.resize(plan.rows, max_index);
         // DenseMatrix::fill writes the alignment padding of every row too (column counts that are not a
         // multiple of the alignment): padding is not a cell and must be invisible to max / argmax / threshold
         s.matrix_mut().fill(T::TOP);
@@ -244,7 +250,7 @@ fn build<T: El, C: PositiveLength>(plan: &Plan<T>, bg: &dyn Fn(usize, usize, usi
         }
         s
     } else {
-        cfgs::build_scores::<T, C>(plan.rows, plan.rows * cols, |r, c| cell(plan, bg, r, c, cols))
+        cfgs::build_scores::<T, C>(plan.rows, max_index, |r, c| cell(plan, bg, r, c, cols))
     };
     let mut cells = Vec::with_capacity(plan.rows * cols);
     for r in 0..plan.rows {
@@ -380,6 +386,13 @@ pub fn check_plan<T: El + Runner<T>>(plan: &Plan<T>, cfg: MCfg, ts: &[T], rep: &
         SHRUNK.with(|x| x.set(true));
         check_plan_inner(plan, cfg, ts, rep, " shrunk-buffer");
         SHRUNK.with(|x| x.set(false));
+    }
+    // ... and, for the pipeline-level entry points, with fewer valid positions than cells (the planted cell may lie
+    // past max_index: it is a cell of the matrix all the same)
+    if plan.rows <= 8 && plan.rows > 0 && plan.planted.len() <= 1 && !matches!(cfg, MCfg::Api(_) | MCfg::Unstriped) && !SHORT.with(|x| x.get()) {
+        SHORT.with(|x| x.set(true));
+        check_plan_inner(plan, cfg, ts, rep, " short-max_index");
+        SHORT.with(|x| x.set(false));
     }
     check_plan_inner(plan, cfg, ts, rep, "");
 }
@@ -582,6 +595,7 @@ fn run_tail(ctx: &mut Ctx, rep: &mut Report, base: &mut u64) {
                         matrix: c01::make_matrix(kind, m, k, 0),
                         origin: format!("tail L={} M={} matrix={}", l, m, kind),
                         wrap_override: None,
+                        spare_rows: 0,
                     };
                     let set = [Cfg::GenU32, Cfg::GenU4, Cfg::SseU16, Cfg::SseU32, Cfg::AvxU32, Cfg::DispGen, Cfg::DispSse, Cfg::DispAvx];
                     let o = if alpha == "dna" { c01::check_case::<Dna>(&case, &set, true) } else { c01::check_case::<Protein>(&case, &set, true) };
@@ -615,11 +629,52 @@ pub fn run(ctx: &mut Ctx, rep: &mut Report) {
             "planted",
             "product: element type {f32,u8} x configuration {generic U1,U2,U4,U16,U32,U64; sse2 U16,U32,U48,U64; avx2 U32; dispatcher arms; StripedScores API under each arm; Scores on the unstriped vector} \
              x rows {0..=40,255,256,257,1000 (+64,100,511,2000,5000 thorough)} x background {all -inf, all -5, all 0, descending ramp (all negative), centred ramp, tiny negative ramp | u8: 0, 7, two ramps} \
-             x maximum planted at every column of every row (rows<=40) or of first/last 3 rows + stride sweep, plus duplicated maxima across column halves/rows x threshold menu (below all, planted value and neighbours, background values, above all); matrices of <= 8 rows are probed both in a fresh buffer and in a reused buffer that held 3 more rows before (stale rows must be invisible); \
+             x maximum planted at every column of every row (rows<=40) or of first/last 3 rows + stride sweep, plus duplicated maxima across column halves/rows x threshold menu (below all, planted value and neighbours, background values, above all); matrices of <= 8 rows are probed both in a fresh buffer and in a reused buffer that held 3 more rows before (stale rows must be invisible) and whose padding was filled, and (pipeline-level entry points) declared with fewer valid positions than cells; \
              oracle: scalar scan of the cells read back through the public matrix; non-trivial = rows>0; cases distinct by construction",
         );
         run_planted::<f32>(ctx, rep, &mut base, N_BG_F32, peak_f32, thr_f32);
         run_planted::<u8>(ctx, rep, &mut base, N_BG_U8, peak_u8, thr_u8);
+    }
+    if ctx.wants("tall") {
+        rep.space(
+            "tall",
+            "matrices of 32 767 .. 65 535 rows (16-bit row counters of the vector arg-max kernels; quick: 32 769 and 65 535 rows): element type {f32,u8} x 32-column configurations {generic, sse2, avx2, dispatcher arms, StripedScores API under each arm} \
+             x maximum planted at rows {0, 32767, 32768, last} x columns {0, 15, 16, 31}; same oracle as planted",
+        );
+        let rows_menu: Vec<usize> = if ctx.quick() { vec![32769, 65535] } else { vec![32767, 32768, 32769, 40000, 65535] };
+        let mut cfgs_ = vec![MCfg::Gen(32), MCfg::Sse(32), MCfg::Avx];
+        for a in cfgs::FORCED {
+            cfgs_.push(MCfg::Arm(a));
+        }
+        for a in cfgs::FORCED {
+            cfgs_.push(MCfg::Api(a));
+        }
+        for &rows in &rows_menu {
+            for &r in &[0usize, 32767, 32768, rows - 1] {
+                if r >= rows {
+                    continue;
+                }
+                for &c in &[0usize, 15, 16, 31] {
+                    let idx = base;
+                    base += 1;
+                    if !ctx.mine(idx) {
+                        continue;
+                    }
+                    let pf = Plan::<f32> { rows, background: 1, planted: vec![(r, c, peak_f32(1))] };
+                    let tf = vec![peak_f32(1), -4.0];
+                    let pu = Plan::<u8> { rows, background: 1, planted: vec![(r, c, peak_u8(1))] };
+                    let tu = vec![peak_u8(1), 200];
+                    for &cfg in &cfgs_ {
+                        check_plan(&pf, cfg, &tf, rep);
+                        check_plan(&pu, cfg, &tu, rep);
+                    }
+                }
+            }
+            if ctx.out_of_time() {
+                rep.cap(format!("tall: wall-clock cap at rows={}", rows));
+                break;
+            }
+        }
     }
     if ctx.wants("tail") {
         rep.space(
